@@ -56,7 +56,41 @@ func init() {
 
 type c05Cfg struct{ in, out, prefix string }
 
-var c05Cfgs = []c05Cfg{{"x", "z", "t"}, {"in", "out", "tmp"}, {"t", "t0x", "t0"}}
+// naming configurations with pairwise distinct names; in the last two the output resp. input name is what
+// ANOTHER configuration's format would give a temporary (a format-blind name cache would collide with it)
+var c05Cfgs = []c05Cfg{{"x", "z", "t"}, {"in", "out", "tmp"}, {"t", "t0x", "t0"}, {"x", "t0", "r"}, {"t1", "z", "s"}}
+
+// c05Poison: calls whose outcome is not judged -- allocation of ill-formed programs (a read of an index
+// that is only defined later, a dangling read, an empty program) and of a well-formed program under a
+// configuration whose output name clashes with a temporary name. They stand for what a long-lived
+// process may have done before: the judged cases that follow must not be affected by them (state kept
+// in package-level variables, pools or caches after a refusal).
+func c05Poison(g *Gen) {
+	mk := func(ops ...[3]int) *ir.Program {
+		p := &ir.Program{}
+		for _, o := range ops {
+			p.AddInstruction(&ir.Instruction{Output: ir.Index(o[0]), Op: ir.Add{X: ir.Index(o[1]), Y: ir.Index(o[2])}})
+		}
+		return p
+	}
+	later := mk([3]int{1, 0, 2}, [3]int{2, 1, 1}, [3]int{3, 2, 2}, [3]int{4, 3, 3}, [3]int{5, 4, 4})
+	dangling := mk([3]int{1, 0, 0}, [3]int{2, 1, 7}, [3]int{3, 2, 2})
+	wide := c05Wide(13, 1)
+	for _, c := range []struct {
+		a pass.Allocator
+		p *ir.Program
+	}{
+		{pass.Allocator{Input: "x", Output: "z", Format: "t%d"}, later},
+		{pass.Allocator{Input: "x", Output: "z", Format: "t%d"}, dangling},
+		{pass.Allocator{Input: "x", Output: "z", Format: "t%d"}, &ir.Program{}},
+		{pass.Allocator{Input: "in", Output: "t3", Format: "t%d"}, wide},
+		{pass.Allocator{Input: "t2", Output: "out", Format: "t%d"}, wide.Clone()},
+	} {
+		c := c
+		safe(func() { _ = c.a.Execute(c.p) })
+	}
+	g.Count("poison-calls")
+}
 
 func c05DumpIR(p *ir.Program) string {
 	if len(p.Instructions) == 0 {
@@ -437,6 +471,9 @@ func c17EvalTruncate(g *Gen, p *ir.Program) {
 type c05Emitter func(g *Gen, p *ir.Program, allCfgs bool)
 
 func c05Emit(g *Gen, p *ir.Program, allCfgs bool) {
+	if g.N%701 == 0 {
+		c05Poison(g)
+	}
 	x := new(big.Int).SetUint64(g.R.Next() | 1)
 	if allCfgs {
 		for _, cfg := range c05Cfgs {
@@ -448,6 +485,9 @@ func c05Emit(g *Gen, p *ir.Program, allCfgs bool) {
 }
 
 func c17Emit(g *Gen, p *ir.Program, _ bool) {
+	if g.N%701 == 0 {
+		c05Poison(g)
+	}
 	var q *ir.Program
 	if g.N%5 == 0 {
 		q = p.Clone()
